@@ -267,6 +267,39 @@ pub fn gen_case(rng: &mut Rng, kinds: &[&'static str]) -> Case {
                 target: t,
             }
         }
+        "pagq" => {
+            // first-page request of a paginated endpoint: scan parameters with optional members
+            let (sv, cs) = gen_string(rng, false);
+            let o: Option<String> = match rng.below(3) {
+                0 => None,
+                1 => Some(String::new()),
+                _ => Some(gen_string(rng, false).0),
+            };
+            let n: Option<u32> = if rng.bool() { Some(rng.next() as u32) } else { None };
+            let mut pairs: Vec<(String, String)> = vec![("s".into(), sv.clone()), ("uid".into(), uid.to_string())];
+            if let Some(o) = &o {
+                pairs.push(("o".into(), o.clone()));
+            }
+            if let Some(n) = n {
+                pairs.push(("n".into(), n.to_string()));
+            }
+            let mut t = b"/pag?".to_vec();
+            t.extend(enc_pairs(rng, &pairs));
+            let target = String::from_utf8_lossy(&t).to_string();
+            let oc = match &o {
+                None => "absent",
+                Some(x) if x.is_empty() => "present-empty",
+                _ => "present",
+            };
+            Case {
+                kind,
+                class: format!("pagq|{cs}|o-{oc}|n{}", n.is_some() as u8),
+                req: base("GET", t),
+                uid,
+                expect: json!({"which": "first", "scan": {"s": sv, "o": o, "n": n, "uid": uid}}),
+                target,
+            }
+        }
         "pathw" => {
             let n = rng.usize(5);
             let mut segs = vec![];
@@ -570,7 +603,10 @@ fn check_echo_ex(case: &Case, resp: &Resp, local: Option<SocketAddr>, h2: bool) 
 /// HTTP/2 (prior knowledge) multiplexing: `tasks` concurrent streams on each of
 /// `conns` connections, driven with hyper's own h2 client.
 fn run_h2(seed: u64, addr: SocketAddr, kinds: &[&'static str], conns: usize, tasks: usize, per_task: usize, tag: &str) -> Report {
-    use http_body_util::{BodyExt, Full};
+    use http_body_util::combinators::BoxBody;
+    use http_body_util::{BodyExt, StreamBody};
+    use hyper::body::Frame;
+    type ReqBody = BoxBody<bytes::Bytes, std::convert::Infallible>;
     use hyper_util::client::legacy::connect::{HttpConnector, HttpInfo};
     use hyper_util::client::legacy::Client;
     use hyper_util::rt::TokioExecutor;
@@ -588,7 +624,7 @@ fn run_h2(seed: u64, addr: SocketAddr, kinds: &[&'static str], conns: usize, tas
         let mut hs = vec![];
         for c in 0..conns {
             // one client = one pooled h2 connection
-            let client: Client<HttpConnector, Full<bytes::Bytes>> =
+            let client: Client<HttpConnector, ReqBody> =
                 Client::builder(TokioExecutor::new()).http2_only(true).build(HttpConnector::new());
             for t in 0..tasks {
                 let client = client.clone();
@@ -604,7 +640,28 @@ fn run_h2(seed: u64, addr: SocketAddr, kinds: &[&'static str], conns: usize, tas
                         for (n, v) in &case.req.headers {
                             b = b.header(n.as_str(), v.as_slice());
                         }
-                        let req = match b.body(Full::new(bytes::Bytes::from(case.req.body.clone()))) {
+                        // the body as a sequence of DATA frames cut at random points, some of
+                        // them EMPTY (legal in HTTP/2 anywhere before END_STREAM)
+                        let mut frames: Vec<Result<Frame<bytes::Bytes>, std::convert::Infallible>> = vec![];
+                        let body = &case.req.body;
+                        let mut off = 0;
+                        let mut empties = 0;
+                        while off < body.len() {
+                            if rng.chance(1, 4) {
+                                frames.push(Ok(Frame::data(bytes::Bytes::new())));
+                                empties += 1;
+                            }
+                            let n = (1 + rng.usize(body.len())).min(body.len() - off);
+                            frames.push(Ok(Frame::data(bytes::Bytes::copy_from_slice(&body[off..off + n]))));
+                            off += n;
+                        }
+                        if rng.chance(1, 4) {
+                            frames.push(Ok(Frame::data(bytes::Bytes::new())));
+                            empties += 1;
+                        }
+                        let nframes = frames.len();
+                        let rb: ReqBody = BodyExt::boxed(StreamBody::new(futures::stream::iter(frames)));
+                        let req = match b.body(rb) {
                             Ok(r) => r,
                             Err(_) => {
                                 // a target the http crate will not carry (generator domain)
@@ -634,7 +691,8 @@ fn run_h2(seed: u64, addr: SocketAddr, kinds: &[&'static str], conns: usize, tas
                             }
                         };
                         let fake = Resp { version: "HTTP/2".into(), status, reason: String::new(), headers: vec![], body, framing: "h2", chunks: 0 };
-                        rep.eval(format!("{}|h2|streams{}|{tag}", case.class, tasks.min(64)));
+                        rep.eval(format!("{}|h2|streams{}|frames{}|empty{}|{tag}", case.class, tasks.min(64), nframes.min(4), empties.min(2)));
+                        rep.count("h2_empty_data_frames_sent", empties as u64);
                         rep.count("h2_responses", 1);
                         if let Some((sig, detail)) = check_echo_ex(&case, &fake, local, true) {
                             rep.violate(sig, json!({"seed": seed, "transport": "h2", "connection": c, "stream_task": t, "index": k,
